@@ -299,7 +299,7 @@ fn shape_word() -> (Word, [Segment; 5]) {
     (w, s)
 }
 
-//% props=C03 tier=quick kind=B bound="one word shape (2 syllables of 2 and 3 segments), all positions with indices <= 4" timeout=900 pair=SubRule::context_match,Word::out_of_bounds,SegPos::at_syll_start,SegPos::at_word_start clause="`#` in an environment is the out-of-bounds test, `$` is segment index 0 (and not the word start when inserting before)"
+//% props=C03 tier=quick kind=B bound="one word shape (2 syllables of 2 and 3 segments), all positions with indices <= 4" timeout=900 pair=SubRule::context_match,SubRule::context_match_set,Word::out_of_bounds,SegPos::at_syll_start,SegPos::at_word_start clause="`#` in an environment is the out-of-bounds test, `$` is segment index 0 (and not the word start when inserting before)"
 #[kani::proof]
 #[kani::unwind(7)]
 fn k3b_context_boundaries() {
@@ -324,24 +324,12 @@ fn k3b_context_boundaries() {
     let want = gi == 0 && !(ins && si == 0);
     assert!(matches!(r2, Ok(b) if b == want), "`$` matches exactly at segment index 0 (not at the word start when inserting before)");
     assert!(p2 == p0 && idx == 0, "`$` consumes nothing");
-}
-
-//% props=C03 tier=thorough kind=B bound="one word shape (2 syllables of 1 and 2 segments)" timeout=1800 pair=Word::reverse,SegPos::reversed,Word::get_seg_at clause="the before-context is matched on the reversed word: reverse() mirrors segments, syllables, stress and tone, and reversed() addresses the same segment"
-#[kani::proof]
-#[kani::unwind(4)]
-fn k3b_reverse_mirror() {
-    let s = [any_wf_segment(), any_wf_segment(), any_wf_segment()];
-    let w = mk_word(vec![mk_syll(&[s[0]], any_stress(), kani::any()), mk_syll(&[s[1], s[2]], any_stress(), kani::any())]);
-    let r = w.reverse();
-    assert!(r.syllables.len() == 2 && r.syllables[0].segments.len() == 2 && r.syllables[1].segments.len() == 1);
-    assert!(r.syllables[0].stress == w.syllables[1].stress && r.syllables[0].tone == w.syllables[1].tone);
-    assert!(r.syllables[1].stress == w.syllables[0].stress && r.syllables[1].tone == w.syllables[0].tone);
-    let si: usize = kani::any();
-    let gi: usize = kani::any();
-    kani::assume((si == 0 && gi < 1) || (si == 1 && gi < 2));
-    let p = SegPos::new(si, gi);
-    let q = p.reversed(&w);
-    assert!(r.in_bounds(q), "reversed() of an in-bounds position is in bounds of the reversed word");
-    assert!(r.get_seg_at(q) == w.get_seg_at(p), "same segment through the mirror");
-    assert!(q.reversed(&r) == p, "involution");
+    // the same two boundary tests as members of a set `{.., #}` / `{.., $}` (duplicated arms in context_match_set)
+    let mut p3 = p0;
+    let r3 = sr.context_match_set(&wb, &w, &mut p3, fwd);
+    assert!(matches!(r3, Ok(b) if b == !inb), "`#` as a set member matches exactly the out-of-bounds positions");
+    let mut p4 = p0;
+    let r4 = sr.context_match_set(&sb, &w, &mut p4, fwd);
+    assert!(matches!(r4, Ok(b) if b == (gi == 0)), "`$` as a set member matches exactly at segment index 0, also at the word edges");
+    assert!(p3 == p0 && p4 == p0, "a boundary in a set consumes nothing");
 }
